@@ -35,7 +35,9 @@ func Group(services *fun.Iterator[*Service]) *Service {
 
 	return &Service{
 		Run: func(ctx context.Context) error {
+			var members []*Service
 			for services.Next(ctx) {
+				members = append(members, services.Value())
 				wg.Add(1)
 				go func(s *Service) {
 					defer erc.Recover(ec)
@@ -46,6 +48,13 @@ func Group(services *fun.Iterator[*Service]) *Service {
 			}
 			wg.Wait(ctx)
 			ec.Add(waiters.Close())
+
+			// the members run with the context of this service,
+			// which ends when Run returns: stay here until they
+			// have all returned or the group itself is stopped.
+			for _, s := range members {
+				_ = s.waitFor(ctx)
+			}
 			return nil
 		},
 		Cleanup: func() error {
